@@ -45,6 +45,18 @@ def usable(d):
     return not (d.get("timeout") or d.get("crash") or d.get("nerr") or d.get("framing_err") or "frames" not in d)
 
 
+def why_unusable(d):
+    if d.get("timeout"):
+        return "timeout"
+    if d.get("crash"):
+        return "crash(rc=%s)" % d.get("rc")
+    if d.get("nerr"):
+        return "decode-error(%s)" % d.get("first_err")
+    if d.get("framing_err"):
+        return "obu-framing"
+    return "no-output"
+
+
 def validate(prefix, d):
     """Cross-validates the SVT decoder's parse against libaom (dav1d when libaom rejects the stream): same number of output
     pictures, same samples.
@@ -203,3 +215,28 @@ def build_mutant_encdrv(name, relpath, find, repl):
             f.write(new)
     return vlib.cc_harness("rel", "encdrv_hdrmut_" + name, ["encdrv.c", "vs_stub.c", path], internal=True,
                            extra_cflags=lib_cflags(relpath), extra_ldflags="-Wl,--allow-multiple-definition")
+
+
+_hdr_enc = None
+
+
+def run_hdr_enc(args, out, timeout=300):
+    """One session of src/hdr_enc.c (contents rotzoom / pan with a global camera motion; small field subset)."""
+    global _hdr_enc
+    if _hdr_enc is None:
+        _hdr_enc = vlib.cc_harness("rel", "hdr_enc", ["hdr_enc.c"])
+    a = dict(args)
+    a["out"] = out
+    en = dict(os.environ)
+    en["SVT_LOG"] = "-2"
+    try:
+        p = subprocess.run([_hdr_enc] + enc.argv_of(a), stdout=subprocess.PIPE, stderr=subprocess.PIPE, env=en, timeout=timeout)
+    except subprocess.TimeoutExpired:
+        return {"timeout": True, "exit": None, "stderr": ""}
+    res = {"timeout": False, "exit": p.returncode, "stderr": p.stderr[-4000:].decode("latin1")}
+    try:
+        res.update(json.loads(p.stdout.decode("latin1").strip().split("\n")[-1]))
+        res["parsed"] = True
+    except Exception:
+        res["parsed"] = False
+    return res
